@@ -49,8 +49,9 @@ Print Assumptions C14_null_never_retried.
 (* series_mon: ODb (DbWriteUnsol c1 c2 c3) needs some class set, an earlier IUnsolConfirmed and nothing
    outstanding; a first unsolicited transmission with more than 4 bytes needs such a DbWriteUnsol just
    before it; while a response is outstanding (from its transmission to IUnsolConfirmed, IUnsolTimeout _
-   false, OSessionEnd, or the solicited answer sent in a step whose event is a DISABLE_UNSOLICITED
-   request to this outstation) every unsolicited transmission follows an IUnsolTimeout _ true, is
+   false, OSessionEnd, the solicited answer sent in a step whose event is a DISABLE_UNSOLICITED
+   request to this outstation, or - since the repair of F30 - the report IBroadcast 21 0 _ of a
+   DISABLE_UNSOLICITED processed by broadcast, which cancels the series without an answer) every unsolicited transmission follows an IUnsolTimeout _ true, is
    byte-identical to the outstanding one, and there are at most o_retries of them (none for an empty
    response); IUnsolTimeout / IUnsolConfirmed occur only while a response is outstanding *)
 Theorem C14_series_accepted : forall cfg s tr,
@@ -296,4 +297,24 @@ Example C14_ex3_history :
    IOb (OAt 1002); IOb (OInfo (IUnsolTimeout 1 false)); IOb (ODb DbReset);
    IOb (ODb DbDeferredSelect); IOb (ODb DbWrite); IOb (ODb DbEvinfo);
    IOb (OTx 1 ([228; 129; 130; 0] ++ body1)); IOb (OInfo (IEnterSolWait 4))].
+Proof. vm_compute. reflexivity. Qed.
+
+(* a DISABLE_UNSOLICITED arrives by broadcast during the wait for the confirmation of the first empty
+   response: the series is cancelled (no answer, only the report IBroadcast 21 0 0) and, no empty
+   response having been confirmed yet, the next one follows with the next sequence number *)
+Definition bdisable (q : N) : oevent :=
+  ERx 1 (Some BNotRequired) [192 + q; 21] (DOk (192 + q) 21 RvOk (ObjOk [] [])).
+Definition ex4 : list (oevent * list answer) := [(bdisable 0, [ev0])].
+
+Example C14_ex4_history :
+  snd (trace_of ex_cfg 0 0 0 [ev0] ex4) =
+  [IOb (ODb DbEvinfo); IOb (OTx 1 [240; 130; 128; 0]); IOb (OInfo (IEnterUnsolWait 0));
+   IEv 0 (bdisable 0);
+   IOb (OInfo (IBroadcast 21 0 0));
+   IOb (ODb DbEvinfo); IOb (OTx 1 [241; 130; 129; 0]); IOb (OInfo (IEnterUnsolWait 1))].
+Proof. vm_compute. reflexivity. Qed.
+
+Example C14_ex4_series_mon :
+  mrun (series_mon ex_cfg) sm0 (snd (trace_of ex_cfg 0 0 0 [ev0] ex4)) =
+  Live {| sm_w := WSome [241; 130; 129; 0] (Some 0%nat); sm_armed := false; sm_dis := false; sm_conf := false |}.
 Proof. vm_compute. reflexivity. Qed.
